@@ -350,13 +350,20 @@ def run_S(ctx, wd, hists, per):
             slot = t[1]
             path = os.path.join(wd, "%s_%s.hdf" % (name, slot))
             cmds.append("image " + path)
-            cmds += ["dump", "vdump", "blocks", "dds"]
+            cmds += ["dump", "vdump", "blocks", "dds", "reencode"]
+            linked = set()
+            for rl in R:
+                u = rl.split()
+                if u[0] == "F" + slot and u[1] == "E" and u[4] == "sp1":
+                    linked.add((u[2], u[3]))
             for rl in R:
                 u = rl.split()
                 if u[0] != "F" + slot:
                     continue
                 if u[1] == "DI":
                     cmds.append("di " + " ".join(u[2:7]))
+                    if u[2] == "H" and (u[3], u[4]) in linked:
+                        cmds.append("dimodel %s %s %s" % (u[3], u[4], u[5]))
                 elif u[1] == "SD":
                     cmds.append("sddata " + u[2])
                 elif u[1] == "GR":
@@ -484,6 +491,20 @@ def compare(h, R, per_s):
                 stats[pfx] += 1
                 if a[0] == "readfail" or not (b[0] == a[0] or (len(b[0]) > len(a[0]) and b[0].startswith(a[0]) and pfx == "SDDATA")):
                     bad.append((pfx, "%s %s: library %s, the format says %s" % (pfx, k[0], a[0][:120], b[0][:120])))
+        # R vs M: the model's encoders reproduce the bytes of every record the library wrote; the model of
+        # HLgetdatainfo gives the library's answers
+        for x in S:
+            if x.startswith("RE "):
+                stats["RE"] = stats.get("RE", 0) + 1
+                if not x.endswith(" ok"):
+                    bad.append(("model", "encoder model differs from the library's bytes: " + x))
+        DM = {tuple(x.split()[1:4]): x.split()[4:] for x in S if x.startswith("DM ")}
+        for x in RD:
+            u = x.split()
+            if u[1] == "H" and (u[2], u[3], u[4]) in DM:
+                stats["DM"] = stats.get("DM", 0) + 1
+                if u[6:] != DM[(u[2], u[3], u[4])]:
+                    bad.append(("model", "HLgetdatainfo model: library '%s', model '%s'" % (" ".join(u[6:])[:120], " ".join(DM[(u[2], u[3], u[4])])[:120])))
         # directory in memory at close time == directory parsed from the bytes
         g = owner.get(slot)
         if g is not None and g < len(groups):
@@ -580,6 +601,12 @@ def run(ctx):
                 known += 1
                 continue
             nviol += 1
+            if all(b[0] == "model" for b in bad):
+                txt = ["# C02: the library agrees with the format specification on this history, but the implementation",
+                       "# model (coq/FmtModel.v) no longer describes the library: R-vs-M correspondence broken",
+                       "# run: bin/check C02 --replay <this file>"] + h + ["#   [%s] %s" % b for b in bad[:8]]
+                ctx.violation("correspondence library~FmtModel broken: " + bad[0][1], "\n".join(txt), found=False)
+                continue
             fb0 = fails(ctx, h, None, "first")[0] or bad
             kinds = {fb0[0][0]}
             small = shrink(ctx, h, kinds, 40 if ctx.tier == "quick" else 150)
